@@ -33,8 +33,14 @@ def gen_cases_for(seed_, n):
         rng = rng_for(PROP, seed_, i)
         inputs = []
         for k in range(rng.randint(1, 3)):
-            prof = rng.choice(["tree", "tree", "small", "strings", "merge", "shared", "unicode", "oddnames"])
-            if prof == "shared":
+            prof = rng.choice(["tree", "tree", "small", "strings", "merge", "shared", "unicode", "oddnames", "fwnames"])
+            if prof == "fwnames":
+                # keys that one framework renames on its own (pydantic / sqlmodel: BaseModel attributes; attrs: self) and the others
+                # keep: what one framework made of a key must not reach the next framework's rendering
+                ks = rng.sample(["json", "copy", "validate", "self", "dict", "schema", "fields", "construct", "parse_obj", "from", "metadata"], 4)
+                samples = [{ks[0]: 1, ks[1]: "s", "inner": {ks[2]: 1.5, ks[3]: [1], ks[0]: "t"}, "plain": 2}]
+                merge = [["exact"]]
+            elif prof == "shared":
                 # nested layout puts the shared child into the root and injects absolute paths ('Root.Child') for it
                 a, b, c = rng.sample(["alpha", "beta", "gamma", "delta", "omega", "sigma"], 3)
                 child = {"x": 1, "y": rng.choice([2, "s", 2.5])}
